@@ -370,3 +370,30 @@ def quiet_logging():
 
 
 quiet_logging()
+
+
+import contextlib  # noqa: E402
+
+
+@contextlib.contextmanager
+def diagnostics(on=True):
+    """process-wide diagnostic settings an application may legitimately use: DEBUG logging for the library's loggers
+    and warnings turned into errors (-W error / pytest filterwarnings=error).  Neither may change what the library
+    returns or raises."""
+    import logging
+    import warnings
+
+    if not on:
+        yield
+        return
+    names = ["pyrtcm"] + [n for n in logging.root.manager.loggerDict if n.startswith("pyrtcm.")]
+    old = {n: logging.getLogger(n).level for n in names}
+    for n in names:
+        logging.getLogger(n).setLevel(logging.DEBUG)
+    try:
+        with warnings.catch_warnings():
+            warnings.simplefilter("error")
+            yield
+    finally:
+        for n, lv in old.items():
+            logging.getLogger(n).setLevel(lv)
